@@ -43,7 +43,7 @@ type op struct {
 	Val   hx     `json:"val,omitempty"`
 	Start hx     `json:"start,omitempty"`
 	End   hx     `json:"end,omitempty"`
-	Limit int    `json:"limit,omitempty"`
+	Limit int    `json:"limit"`
 	Rev   bool   `json:"rev,omitempty"`
 	Snap  int    `json:"snap,omitempty"`
 	// restore: views derived (WithPrefix) from the restored view afterwards, as the state
